@@ -140,6 +140,47 @@ read_tape(const std::string& path, std::vector<VhTok>& out)
     return true;
 }
 
+// A sequence file holds several tapes that are to run one after the other in ONE process (a failure that
+// depends on what an earlier case left behind in the code under test: a `static`, a registry, a leaked
+// handle).  Format: "VHSEQ1\n", then per tape a little-endian u32 token count and the tokens.
+static const char kSeqMagic[] = "VHSEQ1\n";
+static inline bool
+read_seq(const std::string& path, std::vector<std::vector<VhTok>>& out)
+{
+    FILE* f = fopen(path.c_str(), "rb");
+    if (!f)
+        return false;
+    std::vector<uint8_t> buf;
+    uint8_t tmp[4096];
+    size_t n;
+    while ((n = fread(tmp, 1, sizeof tmp, f)) > 0)
+        buf.insert(buf.end(), tmp, tmp + n);
+    fclose(f);
+    if (buf.size() < 7 || memcmp(buf.data(), kSeqMagic, 7) != 0)
+        return false;
+    size_t i = 7;
+    while (i + 4 <= buf.size()) {
+        uint32_t nt = (uint32_t)buf[i] | ((uint32_t)buf[i + 1] << 8) | ((uint32_t)buf[i + 2] << 16) | ((uint32_t)buf[i + 3] << 24);
+        i += 4;
+        if (i + 8ull * nt > buf.size())
+            break;
+        out.push_back(bytes_to_tape(buf.data() + i, 8ull * nt));
+        i += 8ull * nt;
+    }
+    return true;
+}
+static inline void
+append_seq(FILE* f, const VhTok* t, size_t n)
+{
+    uint8_t h[4] = { (uint8_t)(n & 0xff), (uint8_t)((n >> 8) & 0xff), (uint8_t)((n >> 16) & 0xff), (uint8_t)((n >> 24) & 0xff) };
+    fwrite(h, 1, 4, f);
+    for (size_t i = 0; i < n; ++i) {
+        uint8_t b[8] = { t[i].kind, t[i].a, (uint8_t)(t[i].b & 0xff), (uint8_t)(t[i].b >> 8), (uint8_t)(t[i].c & 0xff), (uint8_t)(t[i].c >> 8),
+                         (uint8_t)(t[i].d & 0xff), (uint8_t)(t[i].d >> 8) };
+        fwrite(b, 1, 8, f);
+    }
+}
+
 // cur.tape: written before each case so that a dying process leaves its input behind.
 // A shared mapping (no system call per case): 8-byte token count, then the tokens.
 struct CurTape
